@@ -15,6 +15,11 @@ ROOT = os.path.dirname(os.path.dirname(os.path.abspath(__file__)))
 EVID = os.path.join(ROOT, "evidence")
 REPLAY = os.path.join(ROOT, "replay")
 KNOWN = os.path.join(ROOT, "known_findings.json")
+# development runs against a scratch worktree (VERIF_REPO=<dir>, seeded / benign changes) never touch the committed evidence
+_alt = os.environ.get("VERIF_REPO")
+if _alt and os.path.realpath(_alt) != os.path.realpath("/repo"):
+    EVID = "/tmp/verif_alt/evidence"
+    REPLAY = "/tmp/verif_alt/replay"
 
 
 def seed() -> int:
